@@ -2,9 +2,10 @@
    on a stack of item types, using the abstract effect of each action (StackActs.v) and one summary
    per rule; `check_sound` proves with the logic of StackLogic.v that an expression that checks never
    drives the real actions (Actions.exec_action) into a crash site. *)
-From JP Require Import Peg Text Tree Actions PegFacts ParseFacts ErrPos StackLogic StackActs.
+From JP Require Import Peg Text Tree Actions Eval WF PegFacts ParseFacts ErrPos StackLogic TreeWf StackActs.
 From Coq Require Import Lia.
 Open Scope list_scope.
+Open Scope nat_scope.
 
 (* ---------- abstract states ---------- *)
 Record astate := mkA { a_stk : list ity; a_cap : bool }.
@@ -43,6 +44,7 @@ Qed.
 Inductive summary :=
 | SPush (c : cond) (tys : list ity)     (* under c, pushes items of these types (in push order) and nothing else changes *)
 | SChain                                (* [node] -> [node'], rootedness preserved (continuedJsonpath) *)
+| SOperand                              (* pushes a filter operand and its literal flag, in agreement (jsonpathFilter) *)
 | SBot                                  (* replay never finishes normally (always a documented error) *)
 | SNone.                                (* no summary: may not be referenced *)
 
@@ -102,6 +104,10 @@ Proof.
   - inversion H; subst. cbn [leqr]. unfold leq. rewrite leq_stk_refl. destruct (a_cap a2); split; reflexivity.
   - inversion H; subst. split; reflexivity.
 Qed.
+
+(* a filter operand with its literal flag: `$` paths carry true, `@` paths false *)
+Definition pq_ok (p : pquery) (b : bool) : Prop :=
+  pqwf p = true /\ match p with PqRoot _ => b = true | PqCur _ => b = false | PqLit _ => False end.
 
 Section Check.
   Variable cfg : config.
@@ -180,9 +186,14 @@ Section Check.
         | SBot => Some None
         | SChain => match c0, a_stk a with
                     | CEmpty, [t] | CInit, [t] =>
-                        match t with TNode | TRooted => Some (Some (mkA [t] false)) | _ => None end
+                        match t with
+                        | TNode => Some (Some (mkA [TNode] false))
+                        | TRooted | TRootedH => Some (Some (mkA [TRootedH] false))
+                        | _ => None
+                        end
                     | _, _ => None
                     end
+        | SOperand => if call_ok c0 (a_stk a) CInv then Some (Some (mkA (TBool :: TPQ :: a_stk a) false)) else None
         | SNone => None
         end
     end.
@@ -210,9 +221,13 @@ Section Check.
     match s with
     | SPush c tys => forall ps sv pr, holds c ps sv ->
         tr f (PRef r) (at_ (mk ps sv pr)) (Gam ps sv pr (mkA (rev tys) false))
-    | SChain => forall x sv pr,
+    | SChain => forall x sv pr, nwf x = true ->
         tr f (PRef r) (at_ (mk [INode x] sv pr))
-           (fun y => exists x', snd y = mk [INode x'] sv pr /\ (rootedb x = true -> rootedb x' = true))
+           (fun y => exists x', snd y = mk [INode x'] sv pr /\ nwf x' = true /\ hvg x' = true /\
+                                (rootedb x = true -> rootedb x' = true))
+    | SOperand => forall ps sv pr, holds CInv ps sv ->
+        tr f (PRef r) (at_ (mk ps sv pr))
+           (fun y => exists p b, snd y = mk (ps ++ [IPQ p; IBool b]) sv pr /\ pq_ok p b)
     | SBot => forall st0, tr f (PRef r) (at_ st0) (fun _ => False)
     | SNone => True
     end.
@@ -292,7 +307,7 @@ Section Check.
     - inversion Hc; subst. apply tr_notok; [reflexivity|]. intros z Hz; exact Hz.
     - inversion Hc; subst. apply tr_notok; [reflexivity|]. intros z Hz; exact Hz.
     - (* rule reference: use the summary *)
-      pose proof (HR r) as Hsem. destruct (summary_of r) as [c tys| | |] eqn:Es; cbn [Sem] in Hsem.
+      pose proof (HR r) as Hsem. destruct (summary_of r) as [c tys| | | |] eqn:Es; cbn [Sem] in Hsem.
       + destruct (call_ok c0 (a_stk a) c) eqn:Eo; [|discriminate]. inversion Hc; subst res.
         apply tr_pre_ex. intros x0 (vals & Hty & Hst & _).
         specialize (Hsem (ps ++ rev vals) sv pr (call_ok_holds _ _ _ _ _ _ Hh Eo Hty)).
@@ -302,20 +317,40 @@ Section Check.
           -- apply typed_app; assumption.
           -- rewrite Hs1, rev_app_distr, app_assoc. reflexivity.
           -- discriminate.
-      + assert (Hps : ps = []) by (destruct c0; try discriminate; cbn [holds] in Hh; [exact Hh|apply Hh]).
-        assert (Hshape : exists t, a_stk a = [t] /\ (t = TNode \/ t = TRooted) /\ res = Some (mkA [t] false)).
+      + (* the node chain *)
+        assert (Hps : ps = []) by (destruct c0; try discriminate; cbn [holds] in Hh; [exact Hh|apply Hh]).
+        assert (Hshape : exists t t', a_stk a = [t] /\ res = Some (mkA [t'] false) /\
+                          ((t = TNode /\ t' = TNode) \/ ((t = TRooted \/ t = TRootedH) /\ t' = TRootedH))).
         { destruct c0; try discriminate; destruct (a_stk a) as [|t [|t2 l]]; try discriminate;
-            destruct t; try discriminate; inversion Hc; subst res; eexists; repeat split; auto. }
-        destruct Hshape as (t & Ea & Htt & ->). subst ps.
+            destruct t; try discriminate; inversion Hc; subst res; do 2 eexists; repeat split; auto. }
+        destruct Hshape as (t & t' & Ea & -> & Htt). subst ps.
         apply tr_pre_ex. intros x0 (vals & Hty & Hst & _). rewrite Ea in Hty.
         inversion Hty as [|v ? vs ? Hv Hvs]; subst. inversion Hvs; subst.
-        assert (Hn : exists nd, v = INode nd) by (destruct Htt as [-> | ->]; destruct v; try discriminate Hv; eexists; reflexivity).
-        destruct Hn as [nd ->]. cbn [rev app] in Hst.
-        eapply tr_conseq; [| |exact (Hsem nd sv pr)].
+        assert (Hn : exists nd, v = INode nd /\ nwf nd = true /\ (t' = TRootedH -> rootedb nd = true)).
+        { destruct Htt as [[-> ->]|[[-> | ->] ->]]; destruct v; try discriminate Hv; cbn [has_ty] in Hv;
+            eexists; (split; [reflexivity|]).
+          - split; [exact Hv|discriminate].
+          - apply andb_true_iff in Hv. destruct Hv as [H1 H2]. split; [exact H1|intros _; exact H2].
+          - apply andb_true_iff in Hv. destruct Hv as [Hv _]. apply andb_true_iff in Hv. destruct Hv as [H1 H2].
+            split; [exact H1|intros _; exact H2]. }
+        destruct Hn as (nd & -> & Hnwf & Hroot0). cbn [rev app] in Hst.
+        eapply tr_conseq; [| |exact (Hsem nd sv pr Hnwf)].
         * intros z ->. exact Hst.
-        * intros z (x' & Hs1 & Hroot). exists [INode x']. cbn [a_stk a_cap Gres Gam rev app]. repeat split.
-          -- constructor; [|constructor]. destruct Htt as [-> | ->]; [reflexivity|]. cbn [has_ty] in *. apply Hroot. exact Hv.
+        * intros z (x' & Hs1 & Hw & Hh' & Hroot). exists [INode x']. cbn [a_stk a_cap Gres Gam rev app]. repeat split.
+          -- constructor; [|constructor].
+             destruct Htt as [[_ ->]|[_ ->]]; cbn [has_ty]; [exact Hw|].
+             rewrite Hw, Hh', (Hroot (Hroot0 eq_refl)). reflexivity.
           -- exact Hs1.
+          -- discriminate.
+      + (* a filter operand *)
+        destruct (call_ok c0 (a_stk a) CInv) eqn:Eo; [|discriminate]. inversion Hc; subst res.
+        apply tr_pre_ex. intros x0 (vals & Hty & Hst & _).
+        specialize (Hsem (ps ++ rev vals) sv pr (call_ok_holds _ _ _ _ _ _ Hh Eo Hty)).
+        eapply tr_conseq; [| |exact Hsem].
+        * intros z ->. exact Hst.
+        * intros z (p & b & Hs1 & Hp & Hb). exists (IBool b :: IPQ p :: vals). cbn [a_stk a_cap] in *. repeat split.
+          -- constructor; [reflexivity|]. constructor; [exact Hp|exact Hty].
+          -- rewrite Hs1. cbn [rev]. rewrite <- !app_assoc. reflexivity.
           -- discriminate.
       + inversion Hc; subst res. apply tr_pre_ex. intros x0 _.
         eapply tr_conseq; [| |exact (Hsem (snd x0))]; [intros z ->; reflexivity|intros z []].
